@@ -300,7 +300,7 @@ def run(tier: str, prop: str = "C01") -> int:
         # builders created with immutable=False (PT_Sharing!MCall): duplicate, then call on the duplicate / on the original
         for fname in ("qb_generic", "qb_postgresql", "qb_mysql"):
             fam = fams[fname]
-            labs = [l for l in fam.labels if "#pool" not in l and not l.startswith("auto#")]
+            labs = [l for l in fam.labels if "#pool" not in l and not l.startswith(("auto#", "wrap#"))]
             for sname in ("from", "full"):
                 sid = f"{fname}.{sname}!mutable"
                 for how in ("copy", "deepcopy", "pickle"):
